@@ -395,6 +395,9 @@ func trimTo(s string, n int) string {
 var digitsRe = regexp.MustCompile(`[0-9]+`)
 var hexRe = regexp.MustCompile(`0x[0-9a-fA-F]+`)
 
+// NormDigits replaces numbers by N (signature normalisation).
+func NormDigits(s string) string { return normMsg(s) }
+
 func normMsg(s string) string {
 	s = hexRe.ReplaceAllString(s, "0xN")
 	s = digitsRe.ReplaceAllString(s, "N")
